@@ -133,7 +133,7 @@ def harness(b, name, sources, extra=(), libs=("interrogatedb",), kind="normal", 
             break
     cmd = ["g++", "-std=gnu++11", "-g", "-O1", "-Wno-deprecated", "-D" + GUARD] + ["-D" + d for d in defines]
     if kind == "asan":
-        cmd += SAN_FLAGS.split()
+        cmd += SAN_FLAGS.split() + ['-fno-sanitize=vptr']     # the libraries are built without RTTI for some classes
     cmd += inc + srcs + ["-o", out, "-L", b["lib"], "-Wl,-rpath," + b["lib"]]
     for l in libs:
         cmd.append("-l" + l)
